@@ -16,6 +16,7 @@ import (
 
 	"github.com/miekg/dns"
 	internalcache "github.com/semihalev/sdns/internal/cache"
+	"github.com/semihalev/sdns/internal/wire"
 	"github.com/semihalev/sdns/middleware"
 )
 
@@ -278,5 +279,113 @@ func vC05ChaseView(c *Cache, raw []byte, do bool, withCode bool) *VC05Chase {
 			}
 		}
 	}
+	return out
+}
+
+// ---------------------------------------------------------------------------------------------
+// C05 CaseVerdict: a read-only view of the exact entry a question hits - the full stored body and the
+// stripped (DO=0) body decoded with the library, next to the admission-time verdict the code keeps for each
+// (wireServe / strippedServe), the body wireBodyFor picks for the client's DO bit and the HasDNSSEC fact
+// wireInfoFor reports for it.  Nothing is written, claimed, counted or queried upstream.
+
+type VC05Body struct {
+	Rcode      int
+	AD         bool
+	An, Ns, Ar []VC05Rec // TTL erased; OPT never stored
+}
+
+type VC05Flags struct{ Eligible, DNSSEC, ChaseSafe bool }
+
+type VC05Verdict struct {
+	Qtype, Qclass uint16
+	CD            bool
+	Name          string // folded question name
+	Full          VC05Body
+	FullFlags     VC05Flags
+	HasStripped   bool
+	Stripped      VC05Body
+	StrippedFlags VC05Flags
+	Choice        int // wireBodyFor(do): 0 = none, 1 = the stored body, 2 = the stripped body
+	ChoiceFlags   VC05Flags
+	InfoDNSSEC    bool // wireInfoFor(header, flags of the chosen body).HasDNSSEC
+	Live, Due     bool
+	Wire          []byte // the stored packed body (for the translated prepareWireServe)
+}
+
+func vC05FlagsOf(f wireServeFlags) VC05Flags {
+	return VC05Flags{Eligible: f&wireEligible != 0, DNSSEC: f&wireHasDNSSEC != 0, ChaseSafe: f&wireChaseSafe != 0}
+}
+
+func vC05BodyOf(packed []byte) (VC05Body, bool) {
+	m := new(dns.Msg)
+	if err := m.Unpack(packed); err != nil {
+		return VC05Body{}, false
+	}
+	out := VC05Body{Rcode: m.Rcode, AD: m.AuthenticatedData}
+	sec := func(rrs []dns.RR) []VC05Rec {
+		var rs []VC05Rec
+		for _, rr := range rrs {
+			if rr.Header().Rrtype == dns.TypeOPT {
+				continue
+			}
+			r := VC05RecOf(rr)
+			r.TTL = 0
+			rs = append(rs, r)
+		}
+		return rs
+	}
+	out.An, out.Ns, out.Ar = sec(m.Answer), sec(m.Ns), sec(m.Extra)
+	return out, true
+}
+
+// VC05VerdictView returns nil unless the cache holds a shared (scope-free) exact entry for the question in raw.
+func VC05VerdictView(c *Cache, raw []byte, do bool) *VC05Verdict {
+	if c == nil || c.store == nil {
+		return nil
+	}
+	var req middleware.Request
+	if !req.ParseWire(raw, time.Now(), nil) || !req.RD() || req.HasECS() {
+		return nil
+	}
+	qtype, qclass, cd := req.Qtype(), req.Qclass(), req.CD()
+	key, ok := internalcache.KeyWire(req.WireName(), qtype, qclass, cd)
+	if !ok {
+		return nil
+	}
+	e := c.checkCache(key)
+	if e == nil || !entryMatchesWire(e, &req) || len(e.wire) == 0 {
+		return nil
+	}
+	out := &VC05Verdict{Qtype: qtype, Qclass: qclass, CD: cd, Name: strings.ToLower(e.question.Name)}
+	full, ok := vC05BodyOf(e.wire)
+	if !ok {
+		return nil
+	}
+	out.Full, out.FullFlags = full, vC05FlagsOf(e.wireServe)
+	if e.stripped != nil {
+		sb, ok := vC05BodyOf(e.stripped)
+		if !ok {
+			return nil
+		}
+		out.HasStripped, out.Stripped, out.StrippedFlags = true, sb, vC05FlagsOf(e.strippedServe)
+	}
+	body, flags := e.wireBodyFor(do)
+	switch {
+	case body == nil:
+		out.Choice = 0
+	case len(body) > 0 && len(e.stripped) > 0 && &body[0] == &e.stripped[0]:
+		out.Choice = 2
+	default:
+		out.Choice = 1
+	}
+	out.ChoiceFlags = vC05FlagsOf(flags)
+	if body != nil {
+		if header, ok := wire.ParseHeader(body); ok {
+			out.InfoDNSSEC = e.wireInfoFor(header, flags, false).HasDNSSEC
+		}
+	}
+	out.Live = e.remaining(time.Now()) > 0
+	out.Due = c.prefetchQueue != nil && e.PrefetchEligible() && e.ShouldPrefetch(c.config.Prefetch)
+	out.Wire = append([]byte(nil), e.wire...)
 	return out
 }
